@@ -13,6 +13,7 @@ import (
 	rio "github.com/pip-services3-gox/pip-services3-expressions-gox/io"
 	"github.com/pip-services3-gox/pip-services3-expressions-gox/mustache"
 	mparsers "github.com/pip-services3-gox/pip-services3-expressions-gox/mustache/parsers"
+	"github.com/pip-services3-gox/pip-services3-expressions-gox/tokenizers"
 	"github.com/pip-services3-gox/pip-services3-expressions-gox/variants"
 )
 
@@ -308,12 +309,154 @@ func c05HasNext(c *fw.Ctx, kind string, o int, in string, pattern []int) {
 	}
 }
 
+// alternate entry points must give what the main entry point gives on a fresh instance
+func c05EntryPoints(c *fw.Ctx, kind string, in string) {
+	c.Eval(1)
+	c.Nontrivial()
+	switch kind {
+	case "expression":
+		p1 := parsers.NewExpressionParser()
+		obs := func(p *parsers.ExpressionParser, err error) string {
+			return fmt.Sprintf("err=%s result=[%s] vars=%q", errStr(err), exprTokensStr(p.ResultTokens()), p.VariableNames())
+		}
+		var want string
+		if pv := fw.Try(func() { want = obs(p1, p1.ParseString(in)) }); pv != nil {
+			return // C03
+		}
+		// ParseTokens on the token list the parser itself produced
+		p2 := parsers.NewExpressionParser()
+		got := safeObs(func() string { return obs(p2, p2.ParseTokens(p1.OriginalTokens())) })
+		if got != want && len(p1.OriginalTokens()) > 0 {
+			c.Violation("entry-point-differs:ParseTokens", "expression %q: ParseTokens(OriginalTokens()) gives %s, ParseString gives %s", in, got, want)
+		}
+		p3 := parsers.NewExpressionParser()
+		got = safeObs(func() string { return obs(p3, p3.SetExpression(in)) })
+		if got != want {
+			c.Violation("entry-point-differs:SetExpression", "expression %q: parser.SetExpression gives %s, ParseString gives %s", in, got, want)
+		}
+		// calculator constructors
+		c1 := calculator.NewExpressionCalculator()
+		e1 := c1.SetExpression(in)
+		w2 := safeObs(func() string {
+			v, e := c1.Evaluate()
+			return fmt.Sprintf("set=%s result=[%s] eval=%s/%s", errStr(e1), exprTokensStr(c1.ResultTokens()), variantStr(v), errStr(e))
+		})
+		g2 := safeObs(func() string {
+			c2, e2 := calculator.ExpressionCalculatorFromExpression(in)
+			v, e := c2.Evaluate()
+			return fmt.Sprintf("set=%s result=[%s] eval=%s/%s", errStr(e2), exprTokensStr(c2.ResultTokens()), variantStr(v), errStr(e))
+		})
+		if g2 != w2 {
+			c.Violation("entry-point-differs:ExpressionCalculatorFromExpression", "expression %q: constructor gives %s, SetExpression gives %s", in, g2, w2)
+		}
+		if e1 == nil && len(c1.OriginalTokens()) > 0 {
+			g3 := safeObs(func() string {
+				c3 := calculator.ExpressionCalculatorFromTokens(c1.OriginalTokens())
+				v, e := c3.Evaluate()
+				return fmt.Sprintf("set=nil result=[%s] eval=%s/%s", exprTokensStr(c3.ResultTokens()), variantStr(v), errStr(e))
+			})
+			if g3 != w2 {
+				c.Violation("entry-point-differs:ExpressionCalculatorFromTokens", "expression %q: FromTokens gives %s, SetExpression gives %s", in, g3, w2)
+			}
+		}
+		// Clear() returns the instance to the fresh state
+		c4 := calculator.NewExpressionCalculator()
+		g4 := safeObs(func() string {
+			c4.SetExpression("zz + qq * 2")
+			c4.Clear()
+			if c4.DefaultVariables().Length() != 0 || len(c4.ResultTokens()) != 0 {
+				return "Clear() left state behind"
+			}
+			e4 := c4.SetExpression(in)
+			v, e := c4.Evaluate()
+			return fmt.Sprintf("set=%s result=[%s] eval=%s/%s", errStr(e4), exprTokensStr(c4.ResultTokens()), variantStr(v), errStr(e))
+		})
+		if g4 != w2 {
+			c.Violation("entry-point-differs:Clear", "expression %q after Clear(): %s, fresh instance: %s", in, g4, w2)
+		}
+	case "template":
+		t1 := mustache.NewMustacheTemplate()
+		var e1 error
+		if pv := fw.Try(func() { e1 = t1.SetTemplate(in) }); pv != nil {
+			return // C03
+		}
+		vars := map[string]string{"a": "v", "b": ""}
+		want := safeObs(func() string {
+			v, e := t1.EvaluateWithVariables(vars)
+			return fmt.Sprintf("set=%s result=[%s] eval=%q/%s", errStr(e1), mustTokensStr(t1.ResultTokens()), v, errStr(e))
+		})
+		got := safeObs(func() string {
+			t2, e2 := mustache.NewMustacheTemplateFromString(in)
+			if t2 == nil {
+				if e2 == nil {
+					return "constructor returned (nil, nil)"
+				}
+				if e1 == nil {
+					return "constructor failed: " + errStr(e2)
+				}
+				return want
+			}
+			v, e := t2.EvaluateWithVariables(vars)
+			return fmt.Sprintf("set=%s result=[%s] eval=%q/%s", errStr(e2), mustTokensStr(t2.ResultTokens()), v, errStr(e))
+		})
+		if got != want {
+			c.Violation("entry-point-differs:NewMustacheTemplateFromString", "template %q: constructor gives %s, SetTemplate gives %s", in, got, want)
+		}
+		if e1 == nil && len(t1.OriginalTokens()) > 0 {
+			got = safeObs(func() string {
+				t3 := mustache.NewMustacheTemplate()
+				e3 := t3.SetOriginalTokens(t1.OriginalTokens())
+				v, e := t3.EvaluateWithVariables(vars)
+				return fmt.Sprintf("set=%s result=[%s] eval=%q/%s", errStr(e3), mustTokensStr(t3.ResultTokens()), v, errStr(e))
+			})
+			if got != want {
+				c.Violation("entry-point-differs:SetOriginalTokens", "template %q: SetOriginalTokens(OriginalTokens()) gives %s, SetTemplate gives %s", in, got, want)
+			}
+		}
+		got = safeObs(func() string {
+			t4 := mustache.NewMustacheTemplate()
+			t4.SetTemplate("{{zz}}{{#qq}}x{{/qq}}")
+			t4.Clear()
+			if len(t4.DefaultVariables()) != 0 || len(t4.ResultTokens()) != 0 {
+				return "Clear() left state behind"
+			}
+			e4 := t4.SetTemplate(in)
+			v, e := t4.EvaluateWithVariables(vars)
+			return fmt.Sprintf("set=%s result=[%s] eval=%q/%s", errStr(e4), mustTokensStr(t4.ResultTokens()), v, errStr(e))
+		})
+		if got != want {
+			c.Violation("entry-point-differs:template-Clear", "template %q after Clear(): %s, fresh: %s", in, got, want)
+		}
+	default: // tokenizers: the ...ToStrings entry points
+		for _, o := range []int{0, optSkipWhitespaces | optSkipComments | optSkipEof | optDecode} {
+			t := newTokenizer(kind)
+			setOptions(t, o)
+			var toks []*tokenizers.Token
+			var strs, strs2 []string
+			if pv := fw.Try(func() {
+				toks = t.TokenizeBuffer(in)
+				strs = t.TokenizeBufferToStrings(in)
+				strs2 = t.TokenizeStreamToStrings(rio.NewStringScanner(in))
+			}); pv != nil {
+				continue // C03
+			}
+			vals := []string{}
+			for _, tk := range toks {
+				vals = append(vals, tk.Value())
+			}
+			if fmt.Sprintf("%q", vals) != fmt.Sprintf("%q", strs) || fmt.Sprintf("%q", vals) != fmt.Sprintf("%q", strs2) {
+				c.Violation("entry-point-differs:ToStrings:"+kind, "%s tokenizer %s, input %q: TokenizeBuffer values %q, TokenizeBufferToStrings %q, TokenizeStreamToStrings %q", kind, optStr(o), in, vals, strs, strs2)
+			}
+		}
+	}
+}
+
 func init() {
 	fw.Register(&fw.Check{
 		ID:    "C05",
 		Level: "model_checking",
 		Rule: "explicit operation histories on ONE real instance of each of 12 object kinds (4 tokenizers x {no options, parser options}, ExpressionParser, ExpressionCalculator, MustacheParser, MustacheTemplate): every ordered pair (thorough: triple) of inputs from a pool with every registered multi-character symbol alone and next to its siblings, every token class, unterminated literals, malformed programs; " +
-			"after each step the full observation (tokens with positions / compiled program, variable names, error, values under two variable sets / rendering) must equal a freshly constructed instance's; plus every aborted iteration (SetReader, k fetches, abandon) followed by every input, and every pattern in {0,1,2}^m of HasNextToken queries before each fetch; non-trivial = histories of >=2 steps",
+			"after each step the full observation (tokens with positions / compiled program, variable names, error, values under two variable sets / rendering) must equal a freshly constructed instance's; plus every aborted iteration (SetReader, k fetches, abandon) followed by every input, and every pattern in {0,1,2}^m of HasNextToken queries before each fetch; the alternate entry points (ParseTokens / SetOriginalTokens on the instance's own token list, the ...FromExpression / FromTokens / FromString constructors, Clear(), the ...ToStrings tokenizer calls) must give what the main entry point gives on a fresh instance; non-trivial = histories of >=2 steps",
 		Assume: []string{"an outcome that is identical on the fresh instance (including a panic) is not a history effect and is left to C03"},
 		Spaces: func(tier string) []fw.Space {
 			objs := c05Objects()
@@ -335,6 +478,22 @@ func init() {
 						return ob.name + " fed " + strings.Join(s, " then ")
 					}})
 			}
+			type ep struct{ kind, in string }
+			eps := []ep{}
+			for _, x := range c05ExprPool {
+				eps = append(eps, ep{"expression", x})
+			}
+			for _, x := range c05TmplPool {
+				eps = append(eps, ep{"template", x})
+			}
+			for _, kind := range tokKinds {
+				for _, x := range c05TokPools[kind] {
+					eps = append(eps, ep{kind, x})
+				}
+			}
+			sp = append(sp, fw.Space{Name: "entry-points", N: int64(len(eps)),
+				Run:  func(c *fw.Ctx, i int64) { c05EntryPoints(c, eps[i].kind, eps[i].in) },
+				Repr: func(i int64) string { return fmt.Sprintf("alternate entry points, %s input %q", eps[i].kind, eps[i].in) }})
 			parserOpts := optSkipWhitespaces | optSkipComments | optSkipEof | optDecode
 			for _, kind := range tokKinds {
 				kind := kind
